@@ -24,7 +24,8 @@ MANIFEST = dict(
          "computes it (driver_evaluates_spec); splitting at a jump is exact (split_sem: pre [n-m] post matches iff pre and post match with a gap in [n,m] - the re-joining rule "
          "of chained strings); verification around atoms loses and invents nothing when one atom is chosen on every way through the pattern (decompose); the chain "
          "bookkeeping of scan.c (model of _yr_scan_verify_chained_string_match) never confirms a wrong pair (chain_sound, any arrival order) and confirms every legal pair of a "
-         "two-piece chain under the hypotheses H1-H3 (chain_exact_partial, chain_matches_spec_partial: H1 = candidates in start order is what finding F13 violates, H2 = one "
+         "two-piece chain under the hypotheses H1-H3 (chain_exact_partial, chain_matches_spec_partial: H1 = a later tail candidate starts at most YR_RE_SCAN_LIMIT + YR_MAX_ATOM_LENGTH "
+         "bytes before an earlier one, which the real candidate stream satisfies since fix 81c4ffe widened the pruning window (former finding F13), H2 = one "
          "length per head offset is what finding C02-chain-single-length violates); the bytecode VM model (yr_re_exec) is sound on the code of the emit model for the WHOLE hex "
          "fragment - bytes, masks, negations, jumps, nested alternatives - in forward direction (vm_sound_partial). NOT proved: VM soundness for backward code and for the fast "
          "matcher yr_re_fast_exec, VM completeness, chains of more than two pieces, atom extraction and Aho-Corasick. That gap is covered by SAMPLING on every run: generated patterns x buffers through the real engine vs. the compiled Lean specification "
@@ -32,8 +33,8 @@ MANIFEST = dict(
          "order), the whole-pattern code run exhaustively vs. the specification, and the Lean emit model vs. the bytes yr_re_ast_emit_code writes.",
     design_ref="DESIGN.md §4 D6/D7, §5 C02",
     note=core.TB + "The hex printer and the oracle comparator (vf/checks/re_common.py) are trusted (the printer is inside the AST tie). Spec decisions: a chained string reports "
-                   "ONE admissible length; matches never span blocks; every piece stays below the 1024-byte window YR_RE_SCAN_LIMIT. Known findings F13 and "
-                   "C02-chain-single-length (known_findings.json) excuse only MISSED offsets of chained patterns whose pieces have the listed shape; a model/code tie broken "
+                   "ONE admissible length; matches never span blocks; every piece stays below the 1024-byte window YR_RE_SCAN_LIMIT. Known finding "
+                   "C02-chain-single-length (known_findings.json) excuses only MISSED offsets of chained patterns whose head pieces have several lengths; a model/code tie broken "
                    "without a property-level failing input is reported as `no-failing-input-found`.")
 
 VALS = [0x01, 0x02, 0x03, 0x04, 0x11, 0x41, 0x42, 0x61, 0xAA, 0xBB, 0xCC, 0x00, 0xFF, 0x20, 0x0A]
@@ -125,8 +126,9 @@ def pieces(seq):
 
 
 def make_strict(r, seq):
-    """rewrite a chained pattern so that no listed chain finding covers it: non-tail pieces get a fixed length, non-head
-    pieces lose their alternations (the strict oracle then applies to the chain logic itself)"""
+    """rewrite a chained pattern so that no listed chain finding covers it: non-tail pieces get a fixed length (the
+    strict oracle then applies to the chain logic itself; alternations and variable prefixes in non-head pieces stay:
+    their out-of-order candidates are what fix 81c4ffe is about)"""
     ps, _ = pieces(seq)
     if len(ps) < 2:
         return seq
@@ -148,17 +150,9 @@ def make_strict(r, seq):
                 out.append(it)
         return out
 
-    def no_alt(items):
-        out = []
-        for it in items:
-            if it[0] == "alt":
-                out += no_alt(fix_len(it[1][0]))
-            else:
-                out.append(it)
-        return out
     # walk the top-level sequence piece by piece (chaining jumps stay as they are)
     out, cur, idx = [], [], 0
-    flush = lambda cur, idx, last: (no_alt(fix_len(cur)) if (idx > 0 and not last) else fix_len(cur) if not last else no_alt(cur) if idx > 0 else cur)
+    flush = lambda cur, idx, last: cur if last else fix_len(cur)
     i = 0
     bounds = []
     for k, it in enumerate(seq):
@@ -170,7 +164,43 @@ def make_strict(r, seq):
     return out
 
 
+LOWQ = [0x00, 0xFF, 0x20, 0xCC]            # bytes the atom quality heuristic of atoms.c ranks low
+DISTINCT = [0x01, 0x02, 0x03, 0x04, 0x11, 0x41, 0x42, 0x61, 0xAA, 0xBB, 0x7F, 0x90, 0xE9]
+
+
+def gen_atom_run(r):
+    """a run of 6-12 byte / ?? / nibble-mask tokens (no jump, negation or alternative in between) whose best 4-token
+    atom window lies INSIDE the run and begins with a wildcard: low-quality bytes at the edges, `??` + distinctive bytes
+    + `??` in the middle (atoms.c slides a window over such runs and trims leading wildcards: the atom's bytes and the
+    code position verification starts from must stay in step)"""
+    def low():
+        u = r.random()
+        if u < 0.55: return ("b", r.choice(LOWQ))
+        if u < 0.75: return ("a",)
+        m = r.choice([0xF0, 0x0F])
+        return ("m", r.choice(VALS) & m, m)
+    left = [("b", r.choice(LOWQ + [0x10, 0x41]))] + [low() for _ in range(r.choice([0, 0, 1, 2, 3]))]
+    wild = [("a",)] * r.choice([1, 1, 1, 2])
+    core = [("b", c) for c in r.sample(DISTINCT, r.choice([2, 3, 3, 3]))]
+    if r.random() < 0.15:
+        m = r.choice([0xF0, 0x0F]); core[1] = ("m", core[1][1] & m, m)
+    after = [("a",)] if r.random() < 0.75 else [low()]
+    right = [low() for _ in range(r.choice([0, 1, 1, 2, 3]))] + [("b", r.choice(LOWQ + [0x20, 0x30, 0x02]))]
+    run = left + wild + core + after + right
+    while len(run) < 6:
+        run.insert(len(left), low())
+    return run[:12]
+
+
 def gen_pattern(r):
+    if r.random() < 0.16:
+        run = gen_atom_run(r)
+        u = r.random()
+        if u < 0.25:      # something before the run (the run is not the first thing verification sees)
+            return gen_seq(r, r.choice([1, 2]), 0, False, [0]) + [gen_jump(r, False, False)] + run
+        if u < 0.45:
+            return run + [gen_jump(r, False, False)] + gen_seq(r, r.choice([1, 2]), 0, False, [0])
+        return run
     for _ in range(50):
         bigs = [r.choice([0, 0, 0, 1, 1, 2, 3])]
         n = r.choice([1, 2, 2, 3, 3, 4, 4, 5, 6, 7, 8, 10])
@@ -349,13 +379,16 @@ def gen_case(r, cid):
 
 
 CORPUS = [
-    # F13 (chain pruning) and relatives
+    # chain pruning (F13, fixed by 81c4ffe) and relatives
     ("01 02 03 04 [0-300] ( AA BB CC DD | 11 ?? ?? ?? ?? 66 77 88 99 )", bytes([1, 2, 3, 4]) + b"\0" * 300 + bytes([0x11, 0xAA, 0xBB, 0xCC, 0xDD, 0x66, 0x77, 0x88, 0x99])),
     ("01 02 03 04 [0-300] ( AA BB CC DD | 11 ?? ?? ?? ?? 66 77 88 99 )", bytes([1, 2, 3, 4]) + b"\0" * 300 + bytes([0x11, 0xA0, 0xBB, 0xCC, 0xDD, 0x66, 0x77, 0x88, 0x99])),
     ("01 02 [201] 03 04", bytes([1, 2]) + b"\x41" * 201 + bytes([3, 4])),
     ("01 02 [201] 03 04", bytes([1, 2]) + b"\x41" * 200 + bytes([3, 4])),
     ("01 02 [200-] 03 04", bytes([1, 2]) + b"\x41" * 200 + bytes([3, 4, 3, 4])),
     ("01 02 [-] 03 04 [2-201] 05", bytes([1, 2, 1, 2, 3, 4]) + b"\x05" * 3 + b"\0" * 199 + b"\x05"),
+    # the best atom window is interior and begins with a wildcard (atoms.c window shift)
+    ("10 ?? 41 42 43 ?? 20 30", b"\x00\x00\x00\x00" + bytes([0x10, 0x99, 0x41, 0x42, 0x43, 0x77, 0x20, 0x30]) + b"\x00"),
+    ("1? ?? 41 42 43 ?? 2?", b"\x00\x00\x00\x00" + bytes([0x1A, 0x99, 0x41, 0x42, 0x43, 0x77, 0x2B]) + b"\x41\x42\x43"),
     ("01 ?2 [1] ~03 ~?4 ( 05 | 06 07 )", bytes([1, 0x32, 9, 4, 0x15, 6, 7, 1, 0x02, 9, 3, 0x15, 5])),
 ]
 
@@ -463,7 +496,7 @@ def run(tier, replay=None):
         hist["alt"] += int(bool(meta.get("alt")))
         if np_ > 1 and meta.get("seq") is not None:
             pz, _ = pieces(meta["seq"])
-            strict = not any(variable_len(p) for p in pz[:-1]) and not any(variable_len(p) or has_alt(p) for p in pz[1:])
+            strict = not any(variable_len(p) for p in pz[:-1])
             hist["chained_strict"] = hist.get("chained_strict", 0) + int(strict)
         hist["with_matches"] += int(bool(ms))
         hist["spec_offsets"] += len(spec.get("a", {}))
@@ -549,12 +582,10 @@ def classify_known(kf, meta, case, viol, d):
         return None
     seq = meta.get("seq")
     if seq is None:
-        return "F13" if meta.get("corpus") and "F13" in kf else None
+        return None
     ps, _ = pieces(seq)
     if "C02-chain-single-length" in kf and any(variable_len(p) for p in ps[:-1]):
         return "C02-chain-single-length"
-    if "F13" in kf and any(variable_len(p) or has_alt(p) for p in ps[1:]):
-        return "F13"
     return None
 
 
